@@ -6,7 +6,7 @@
            effectiveVET = (locked + queued + withdrawable + cooldown) * 1e18 <= balance. *)
 From Coq Require Import List NArith Bool Lia.
 From Verif Require Import Common.Util Staker.Model Staker.Base Staker.Lists Staker.Inv Staker.RList Staker.Inv2 Staker.ProofsStep
-  Staker.ProofsUser Staker.ProofsUser2 Staker.ProofsHist Staker.Held Staker.ProofsEpoch Staker.ProofsAll Staker.ProofsCustody.
+  Staker.ProofsUser Staker.ProofsUser2 Staker.ProofsHist Staker.Held Staker.ProofsEpoch Staker.ProofsAll Staker.ProofsCustody Staker.Witness.
 Import ListNotations.
 Open Scope N_scope.
 
@@ -122,16 +122,7 @@ Definition scheduled_exit_is_executed_statement : Prop :=
   forall c d m ops a v b, let s := run c (init d m) ops in
     getv s a = Some v -> v_status v = StatusActive -> v_exit v = Some b -> blk s < b.
 
-Definition lost_cfg : cfg := mkC 4 8 12 16 4 8 8 0 0.
-Definition lost_ops : list op :=
-  [OAddValidation 8191 65535 12 25000000] ++
-  map (fun i => OAddValidation (4096 + N.of_nat i) (61440 + N.of_nat i) 8 25000000) (seq 0 102) ++
-  repeat OBlock 5 ++ [OSignalExit 8191 65535] ++ map (fun i => OSetOnline (4096 + N.of_nat i) false) (seq 0 102) ++
-  repeat OBlock 11 ++ map (fun i => OSetOnline (4096 + N.of_nat i) true) (seq 0 10) ++ repeat OBlock 40.
-Example lost_fact :
-  (match getv (run lost_cfg (init 0 103) lost_ops) 8191 with Some v => (v_status v, v_exit v) | None => (0, None) end,
-   blk (run lost_cfg (init 0 103) lost_ops)) = ((StatusActive, Some 16), 56).
-Proof. vm_compute. reflexivity. Qed.
+(* witness history (Staker/Witness.v, computed once): lost_cfg, lost_ops, lost_fact, lost_stuck *)
 Theorem scheduled_exit_is_executed_refuted : ~ scheduled_exit_is_executed_statement.
 Proof.
   intros H. specialize (H lost_cfg 0 103 lost_ops 8191). cbv zeta in H. pose proof lost_fact as F.
@@ -145,7 +136,7 @@ Example lost_exit_is_stuck :
   let s := run lost_cfg (init 0 103) lost_ops in
   (blk s, held_by s 8191, answer lost_cfg s (OSignalExit 8191 65535), answer lost_cfg s (OWithdraw 8191 65535),
    answer lost_cfg (run lost_cfg (init 0 103) (firstn 221 lost_ops)) OBlock) = (56, 25000000, (1, 0), (0, 0), (0, 6)).
-Proof. vm_compute. reflexivity. Qed.
+Proof. exact lost_stuck. Qed.
 
 (* ---- non-vacuity: a history of two actors (deposit, failed and successful operations, a withdrawal while queued)
         satisfies the hypotheses of counters_sum_between_epochs from the initial state and moves money ---- *)
